@@ -26,6 +26,19 @@ structure TCtl where
   results : List (Nat × Ret) := []
   fin : Nat := 0                  -- stage of the thread epilogue
   guards : List Nat := []         -- (unused by the semantics; bookkeeping of held mutexes)
+  /-- thread-locals of this thread: key ↦ `some id` (live) / `none` (destroyed) -/
+  locals : List (Nat × Option Nat) := []
+  /-- keys whose destructor still has to perform its loom operation (`tlsdtor=1`) -/
+  dtorQueue : List Nat := []
+deriving Repr, Inhabited
+
+/-- state of a scripted future (C20) -/
+structure FutSt where
+  awMutex : Nat := 0              -- the `rt::Mutex` of its `AtomicWaker`
+  notify : Nat := 0               -- the `rt::Notify` of the `block_on` in progress
+  arc : Nat := 0                  -- index (in `World.arcs`) of the `Arc<rt::Notify>` of that `block_on`
+  slot : Bool := false            -- a waker clone sits in the plain slot
+  awWaker : Bool := false         -- a waker clone sits in the `AtomicWaker`
 deriving Repr, Inhabited
 
 structure HandleSt where
@@ -52,6 +65,11 @@ structure World where
   rawAllocs : List (Nat × Nat) := []
   events : List Event := []
   panicking : Bool := false
+  tlsInits : List Nat := [0, 0]
+  tlsDrops : List Nat := [0, 0]
+  tlsObs : List Nat := [0, 0]
+  lazyInits : List Nat := [0, 0]
+  futs : List FutSt := []
 deriving Repr, Inhabited
 
 namespace World
@@ -89,7 +107,12 @@ def init (prog : Prog) (exec : Exec) : Except Panic World := do
   for _ in List.range c.nCondvars do objs := objs ++ [.condvar {}]
   for _ in List.range c.nNotifies do objs := objs ++ [.notify { spurious := true, seqCst := false }]
   for _ in List.range c.nChans do objs := objs ++ [.chan {}]
-  pure { prog, exec := { exec with objs }, notifyWaiting := List.replicate c.nNotifies false }
+  -- one `AtomicWaker` (an `rt::Mutex::new(false)`) per scripted future
+  let mut futs : List FutSt := []
+  for _ in List.range c.nFutures do
+    futs := futs ++ [{ awMutex := objs.length }]
+    objs := objs ++ [.mutex { seqCst := false }]
+  pure { prog, exec := { exec with objs }, notifyWaiting := List.replicate c.nNotifies false, futs }
 
 /-! ### helpers mirroring `object.rs` branch functions -/
 
@@ -143,12 +166,12 @@ def forOthers (w : World) (p : Operation → Bool) (f : Thread → Thread) : Wor
 /-! ### atomics -/
 
 /-- start an atomic primitive: branch if it is a branch point -/
-def primStart (w : World) (x : Nat) (p : Prim) : Except Panic World :=
+def primStart (w : World) (x : Nat) (p : Prim) (next : Nat := 1) : Except Panic World :=
   match p.action with
   | some act => do
-    let w := (w.modCtl w.tid fun c => { c with prim := some p }).setStage 1
+    let w := (w.modCtl w.tid fun c => { c with prim := some p }).setStage next
     w.branch (w.atomObj x) act
-  | none => .ok ((w.modCtl w.tid fun c => { c with prim := some p }).setStage 1)
+  | none => .ok ((w.modCtl w.tid fun c => { c with prim := some p }).setStage next)
 
 /-- the part of an atomic primitive after its branch point; returns the primitive's result -/
 def primEffect (w : World) (x : Nat) (p : Prim) : Except Panic (World × Ret) := do
@@ -350,6 +373,174 @@ def lookupSpawn (w : World) (body : Nat) : Except Panic (Nat × Nat) :=
   | none => .error (.internal 80)
 
 def boolRet (b : Bool) : Ret := .val (if b then 1 else 0)
+
+/-! ### thread-locals and lazy statics (`src/thread.rs` `LocalKey`, `src/lazy_static.rs`) -/
+
+/-- `LocalKey::try_with` on the active thread: the value's id (initialising it on first access),
+or `none` when it has been destroyed -/
+def tlsGet (w : World) (k : Nat) : World × Option Nat :=
+  let t := w.tid
+  match (w.ctlOf t).locals.lookup k with
+  | some (some id) => (w, some id)
+  | some none => (w, none)
+  | none =>
+    let id := w.tlsInits.getD k 0 + 1
+    let w := { w with tlsInits := w.tlsInits.set k id }
+    (w.modCtl t fun c => { c with locals := (k, some id) :: c.locals }, some id)
+
+/-- `Lazy::get` followed by a read of the cell inside the value; returns `id*100 + content` -/
+def lazyGet (w : World) (z : Nat) : Except Panic (World × Int) := do
+  let statics ← match w.exec.lazyStatics with
+    | none => throw .lazyShutdown
+    | some l => pure l
+  let (w, sv) ← match statics.lookup z with
+    | some sv => pure (w, sv)
+    | none => do
+      -- the initialiser: a fresh `UnsafeCell` written once
+      let id := w.lazyInits.getD z 0 + 1
+      let w := { w with lazyInits := w.lazyInits.set z id }
+      let (w, co) := w.pushObj (.cell { readAccess := w.ths.caus, writeAccess := w.ths.caus })
+      let w := w.sync
+      let cs ← w.getCell co
+      if (w.ths.caus.ahead cs.writeAccess).isSome then throw (.causality 10)
+      if (w.ths.caus.ahead cs.readAccess).isSome then throw (.causality 11)
+      let w := w.setObj co (.cell { cs with writeAccess := cs.writeAccess.join w.ths.caus, value := 40 + z })
+      -- `init_static` + `sync_store(AcqRel)`
+      let sv : LazyVal := { sync := w.ths.syncStore Sync.new .ar, inst := id, cell := co }
+      let w := { w with exec := { w.exec with lazyStatics := some ((z, sv) :: statics) } }
+      pure (w, sv)
+  -- `try_get`: `sync_load(Acquire)`
+  let w := w.setThs (w.ths.syncLoad sv.sync .acq)
+  -- `cell.with(|p| *p)`
+  let w := w.sync
+  let cs ← w.getCell sv.cell
+  if cs.isWriting then throw .cellBusy
+  if (w.ths.caus.ahead cs.writeAccess).isSome then throw (.causality 9)
+  let w := w.setObj sv.cell (.cell { cs with readAccess := cs.readAccess.join w.ths.caus })
+  pure (w, (sv.inst : Int) * 100 + cs.value)
+
+/-- `fence(SeqCst)` (not a branch point) -/
+def fenceSC (w : World) : World :=
+  let w := w.sync.fenceAcq.fenceRel
+  w.setThs w.ths.seqCstFence
+
+/-! ### scripted futures: `future::block_on`, `AtomicWaker` (`src/future/*.rs`) -/
+
+def modFut (w : World) (f : Nat) (g : FutSt → FutSt) : World := { w with futs := w.futs.modify f g }
+
+/-- effect of `ref_inc` on the waker's `Arc` (a waker clone) -/
+def wakerClone (w : World) (a : Nat) : Except Panic World := do
+  let o := (w.arcInfo a).obj
+  let s ← w.getArc o
+  let w := w.setObj o (.arc { s with refCnt := s.refCnt + 1 })
+  pure (w.modArc a fun i => { i with stdCount := i.stdCount + 1 })
+
+/-- effect of dropping a waker clone (`drop_arc_raw` → `Arc::drop`) -/
+def wakerDrop (w : World) (a : Nat) : Except Panic World := do
+  let (w, last) ← w.refDecEffect (w.arcInfo a).obj
+  w.afterDec a last
+
+/-- the stages of `block_on(Scripted{f, mode})` followed by dropping what the future still owns -/
+def blockOnStage (w : World) (c : TCtl) (f mode : Nat) : Except Panic World := do
+  let fs := w.futs.getD f {}
+  let ao := (w.arcInfo fs.arc).obj
+  match c.stage with
+  | 0 =>
+    -- `Arc::new(rt::Notify::new(false, true))`
+    let (w, n) := w.pushObj (.notify { seqCst := false, spurious := true })
+    let (w, o) := w.pushObj (.arc {})
+    let a := w.arcs.length
+    let w := { w with arcs := w.arcs ++ [({ obj := o } : ArcInfo)] }
+    pure ((w.modFut f fun s => { s with notify := n, arc := a }).setStage 10)
+  | 10 => w.primStart f (.load .acq) 11
+  | 11 => do
+    -- first flag check of `poll`
+    let (w, r) ← w.primEffect f (.load .acq)
+    if r == .val 1 then (w.setStage 40).branch ao .arcDec
+    else (w.setStage (if mode == 0 then 12 else 20)).branch ao .arcInc
+  | 12 => do
+    let w ← w.wakerClone fs.arc
+    let had := fs.slot
+    let w := w.modFut f fun s => { s with slot := true }
+    -- mode 0: the slot carries no synchronisation; `fence(SeqCst)` pairs with the waking side
+    if had then (w.setStage 13).branch ao .arcDec else pure (w.fenceSC.setStage 14)
+  | 13 => do
+    let w ← w.wakerDrop fs.arc
+    pure (w.fenceSC.setStage 14)
+  | 14 => w.primStart f (.load .acq) 15
+  | 15 => do
+    let (w, r) ← w.primEffect f (.load .acq)
+    if r == .val 1 then (w.setStage 40).branch ao .arcDec
+    else
+      let t := w.tid
+      let (w, st) ← w.notifyWait1 fs.notify
+      pure (w.modCtl t fun c => { c with stage := if st == 1 then 16 else 10 })
+  | 16 => do
+    let w ← w.notifyWait2 fs.notify
+    pure (w.setStage 10)
+  | 20 => do
+    let w ← w.wakerClone fs.arc
+    (w.setStage 21).branch fs.awMutex .opaque
+  | 21 => do
+    let (w, okk) ← w.postAcquire fs.awMutex
+    if !okk then (w.setStage 22).branch fs.notify .opaque
+    else
+      let had := fs.awWaker
+      let w := w.modFut f fun s => { s with awWaker := true }
+      if had then (w.setStage 25).branch ao .arcDec
+      else do
+        let w ← w.releaseLock fs.awMutex
+        pure (w.setStage 14)
+  | 22 => do
+    let w ← w.notifyEffect fs.notify
+    (w.setStage 23).branch ao .arcDec
+  | 23 => do
+    let w ← w.wakerDrop fs.arc
+    (w.setStage 14).yieldNow
+  | 25 => do
+    let w ← w.wakerDrop fs.arc
+    let w ← w.releaseLock fs.awMutex
+    pure (w.setStage 14)
+  | 40 => do
+    -- `block_on` returns: its own `Arc` handle is dropped
+    let w ← w.wakerDrop fs.arc
+    if mode == 0 then
+      if fs.slot then ((w.modFut f fun s => { s with slot := false }).setStage 43).branch ao .arcDec
+      else pure (w.complete (.val 7))
+    else
+      let m ← w.getMutex fs.awMutex
+      (w.setStage 44).branch fs.awMutex .opaque (block := m.lock.isSome)
+  | 43 => do
+    let w ← w.wakerDrop fs.arc
+    pure (w.complete (.val 7))
+  | 44 => do
+    let (w, okk) ← w.postAcquire fs.awMutex
+    if !okk then throw .expectedLock
+    let had := (w.futs.getD f {}).awWaker
+    let w := w.modFut f fun s => { s with awWaker := false }
+    let w ← w.releaseLock fs.awMutex
+    if had then (w.setStage 43).branch ao .arcDec else pure (w.complete (.val 7))
+  | _ => throw (.internal 90)
+
+/-- `wake f` (by value, consuming the waker in the slot) / `wakeref f` (by reference) -/
+def wakeStage (w : World) (c : TCtl) (f : Nat) (byValue : Bool) : Except Panic World := do
+  let fs := w.futs.getD f {}
+  match c.stage with
+  | 0 => w.primStart f (.store 1 .rel)
+  | 1 => do
+    let (w, _) ← w.primEffect f (.store 1 .rel)
+    let w := w.fenceSC
+    if fs.slot then
+      let w := if byValue then w.modFut f fun s => { s with slot := false } else w
+      (w.setStage 2).branch fs.notify .opaque
+    else pure (w.complete .unit)
+  | 2 => do
+    let w ← w.notifyEffect fs.notify
+    if byValue then (w.setStage 3).branch (w.arcInfo fs.arc).obj .arcDec
+    else pure (w.complete .unit)
+  | _ => do
+    let w ← w.wakerDrop fs.arc
+    pure (w.complete .unit)
 
 /-- one stage of operation `op` of the active thread -/
 def runOp (w : World) (c : TCtl) (op : Op) : Except Panic World := do
@@ -673,7 +864,62 @@ def runOp (w : World) (c : TCtl) (op : Op) : Except Panic World := do
       let w := { w with rawAllocs := w.rawAllocs.filter (·.1 != k) }
       pure ((w.setObj o (.alloc { isDropped := true })).complete .unit)
     | none => throw (.internal 77)
-  | .tls _ | .tlsTry _ | .lazy _ => throw (.internal 99)
+  | .tls k =>
+    match w.tlsGet k with
+    | (_, none) => throw .tlsDestroyed
+    | (w, some id) => pure (w.complete (.val id))
+  | .tlsTry k =>
+    match w.tlsGet k with
+    | (w, none) => pure (w.complete .accessError)
+    | (w, some id) => pure (w.complete (.val id))
+  | .tlsNest k j =>
+    match w.tlsGet k with
+    | (_, none) => throw .tlsDestroyed
+    | (w, some _) =>
+      match w.tlsGet j with
+      | (_, none) => throw .tlsDestroyed
+      | (w, some id) => pure (w.complete (.val id))
+  | .tlsStat k => pure (w.complete (.val (w.tlsInits.getD k 0 * 100 + w.tlsDrops.getD k 0)))
+  | .tlsObs k => pure (w.complete (.val (w.tlsObs.getD k 0)))
+  | .lazyStat z =>
+    pure (w.complete (.val (if w.exec.lazyStatics.isSome then w.lazyInits.getD z 0 else 0)))
+  | .lazy z => do
+    let (w, v) ← w.lazyGet z
+    pure (w.complete (.val v))
+  | .blockOn f mode => w.blockOnStage c f mode
+  | .wake f => w.wakeStage c f true
+  | .wakeRef f => w.wakeStage c f false
+  | .dropWaker f =>
+    let fs := w.futs.getD f {}
+    if c.stage == 0 then
+      if fs.slot then
+        ((w.modFut f fun s => { s with slot := false }).setStage 1).branch (w.arcInfo fs.arc).obj .arcDec
+      else pure (w.complete .unit)
+    else do
+      let w ← w.wakerDrop fs.arc
+      pure (w.complete .unit)
+  | .awWake f =>
+    let fs := w.futs.getD f {}
+    match c.stage with
+    | 0 => w.primStart f (.store 1 .rel)
+    | 1 => do
+      let (w, _) ← w.primEffect f (.store 1 .rel)
+      let m ← w.getMutex fs.awMutex
+      (w.setStage 2).branch fs.awMutex .opaque (block := m.lock.isSome)
+    | 2 => do
+      let (w, okk) ← w.postAcquire fs.awMutex
+      if !okk then throw .expectedLock
+      let had := (w.futs.getD f {}).awWaker
+      let w := w.modFut f fun s => { s with awWaker := false }
+      let w ← w.releaseLock fs.awMutex
+      if had then (w.setStage 3).branch (w.futs.getD f {}).notify .opaque
+      else pure (w.complete .unit)
+    | 3 => do
+      let w ← w.notifyEffect fs.notify
+      (w.setStage 4).branch (w.arcInfo fs.arc).obj .arcDec
+    | _ => do
+      let w ← w.wakerDrop fs.arc
+      pure (w.complete .unit)
   | .stop => do
     let p ← w.exec.path.critical
     pure ((w.setPath p).complete .unit)
@@ -683,19 +929,68 @@ def runOp (w : World) (c : TCtl) (op : Op) : Except Panic World := do
   | .skip => pure ((w.setPath w.exec.path.skipBranch).complete .unit)
   | .panic => throw .user
 
-/-- `rt::thread_done` (thread-local destructors: none in this fragment) -/
+/-- `Thread::drop_locals` + dropping the values outside the execution: every live thread-local of
+the active thread is taken out (later accesses get `AccessError`), then dropped.  The destructors'
+effects follow `cfg.tlsDtor`; the keys whose destructor performs a loom operation are queued.
+The implementation iterates a `HashMap`; the twin drops in ascending key order (finding F14: with
+two destructors that perform loom operations the implementation's order is not deterministic). -/
+def dropLocals (w : World) : World :=
+  let t := w.tid
+  let c := w.ctlOf t
+  let live := (c.locals.filterMap fun (k, v) => v.map fun _ => k)
+  let live := [0, 1].filter fun k => live.contains k
+  let w := w.modCtl t fun c => { c with locals := c.locals.map fun (k, _) => (k, none) }
+  let w := live.foldl (fun w k => { w with tlsDrops := w.tlsDrops.set k (w.tlsDrops.getD k 0 + 1) }) w
+  match w.cfg.tlsDtor with
+  | 1 => w.modCtl t fun c => { c with dtorQueue := live }
+  | 2 =>
+    -- the destructor of `k` calls `try_with` on the other key: destroyed → 2; never initialised by this
+    -- thread → it is initialised now (and never dropped) → 1
+    live.foldl (fun w k =>
+      let other := 1 - k
+      match (w.ctlOf t).locals.lookup other with
+      | some _ => { w with tlsObs := w.tlsObs.set k 2 }
+      | none =>
+        let (w, _) := w.tlsGet other
+        { w with tlsObs := w.tlsObs.set k 1 }) w
+  | _ => w
+
+/-- `rt::thread_done` after `drop_locals` -/
 def threadDone (w : World) : Except Panic World := do
   let ths := w.ths.modifyActive fun th => { th.setTerminated with operation := none }
   let (e, _) ← ({ w.exec with threads := ths }).schedule w.panicking
   pure { w with exec := e }
 
+/-- the tail of every thread: `drop_locals`, the destructors' loom operations, termination -/
+def finishThread (w : World) (c : TCtl) : Except Panic World := do
+  let t := w.tid
+  match c.fin with
+  | 10 =>
+    let w := w.dropLocals
+    pure (w.modCtl t fun c => { c with fin := 11 })
+  | 11 =>
+    match c.dtorQueue with
+    | [] => (w.modCtl t fun c => { c with fin := 99 }).threadDone
+    | k :: _ =>
+      -- the destructor of key `k`: `x0.store(10 + k, Relaxed)`
+      let w := w.modCtl t fun c => { c with fin := 12 }
+      w.primStart 0 (.store (10 + (k : Int)) .rlx) c.stage
+  | 12 =>
+    match c.dtorQueue with
+    | [] => throw (.internal 84)
+    | k :: rest =>
+      let (w, _) ← w.primEffect 0 (.store (10 + (k : Int)) .rlx)
+      pure (w.modCtl t fun c => { c with fin := 11, dtorQueue := rest })
+  | _ => throw (.internal 85)
+
 /-- what a thread does after its last DSL operation -/
 def runEpilogue (w : World) (c : TCtl) : Except Panic World := do
   let t := w.tid
-  if t == 0 then
-    -- main closure: `lazy_statics.drop()` then `thread_done()`
+  if c.fin ≥ 10 then w.finishThread c
+  else if t == 0 then
+    -- main closure: `lazy_statics.drop()` (the values are dropped outside the execution), then `thread_done()`
     let w := { w with exec := { w.exec with lazyStatics := none } }
-    (w.modCtl t fun c => { c with fin := 2 }).threadDone
+    pure (w.modCtl t fun c => { c with fin := 10 })
   else
     match w.spawned.find? (·.2.1 == t) with
     | none => throw (.internal 83)
@@ -705,7 +1000,7 @@ def runEpilogue (w : World) (c : TCtl) : Except Panic World := do
         (w.modCtl t fun c => { c with fin := 1 }).branch n .opaque
       else do
         let w ← w.notifyEffect n
-        (w.modCtl t fun c => { c with fin := 2 }).threadDone
+        pure (w.modCtl t fun c => { c with fin := 10 })
 
 /-- one step: run one stage of the active thread -/
 def stepActive (w : World) : Except Panic World :=
